@@ -112,7 +112,37 @@ def lam_of(prog, fterm):
 
 
 def seq_map(prog, b, t):
-    """(iter term with into_iter peeled, Lam) when `t` is `ITER.map(f).collect()` or the equivalent push loop; else None"""
+    """(iter term with into_iter peeled, Lam) when `t` is `ITER.map(f).collect()` or the equivalent push loop; else None.
+    A crate-local helper that does the mapping is looked into, and `ITER.map(g).map(f)` is presented as one map (f after g)."""
+    t = mir.simplify(mir.inline_call(prog, unref(t))) if unref(t)[0] == "call" and unref(t)[1].get("trait") is None and unref(t)[1]["name"].startswith("scale_info") else t
+    r = _seq_map1(prog, b, t)
+    if r is None:
+        return None
+    it, lam = r
+    for _ in range(3):
+        it0 = mir.simplify(it)
+        if not (is_call(it0, "core::iter::traits::iterator::Iterator::map", nargs=2)):
+            break
+        inner = lam_of(prog, it0[2][1])
+        if inner is None or inner.kind != "closure" or lam.kind == "fn":
+            break
+        # compose: the outer function's item is the inner function's result
+        inner_res = mir.simplify(inner.outer(inner.result))
+        outer_res = lam.outer(lam.result) if lam.upvars is not None else lam.result
+        composed = _subst_proj(outer_res, lam.item, inner_res)
+        lam = Lam(inner.body, inner.item, composed, None, "composed")
+        it = it0[2][0]
+        while is_call(it, "into_iter", nargs=1):
+            it = it[2][0]
+    return it, lam
+
+
+def _subst_proj(t, item, value):
+    """replace `item` by `value` in t, folding projections of aggregates (`(a, b).0` -> a)"""
+    return mir.subst(t, {item: value})
+
+
+def _seq_map1(prog, b, t):
     v = map_collect_view(prog, b, t)
     if v is None:
         # fn item form: ITER.map(path).collect()
